@@ -274,8 +274,23 @@ func modeLetters(m uint32) string {
 var singleCalls = []string{
 	"Stat", "Lstat", "ReadFile", "ReadDir", "Open", "Mkdir", "MkdirAll", "WriteFile", "CreateExcl",
 	"Remove", "RemoveAll", "Truncate", "Chmod", "Chtimes", "Chdir", "Readlink", "EvalSymlinks", "Abs",
-	"Glob", "WalkDir", "Sub", "OpenWrite", "OpenChdir",
+	"Glob", "WalkDir", "Sub", "OpenWrite", "OpenChdir", "Chown", "Lchown",
 }
+
+// ownUID, ownGID: the owner given by Chown and Lchown (round 11), an owner no
+// object of any world has. Lesson: every call of the interface that exists in
+// a following and a NOT-following form (Stat/Lstat, Chown/Lchown) is in the
+// alphabet in BOTH forms, on every operand the other one is applied to - the
+// links made through the base among them -, and the attribute it changes
+// (owner of the link AND of its target, both lines of the node graph) is part
+// of the state compared with the twin: a wrapper that forwards the one form to
+// the other of the base is right on every operand that is not a link. Without
+// an identity manager MemFS and OrefaFS take any owner as it is given; with
+// one (variant user) the non-administrator is refused on both sides.
+const (
+	ownUID = 41
+	ownGID = 42
+)
 
 // handleCalls: open a handle on p, take the name p away from the object through
 // the same file system, then call every method of the handle (exec.go,
